@@ -40,10 +40,12 @@ type Ctx struct {
 	Counts   map[string]int
 	Analysed map[string]any
 	seen     map[string]bool
+	ranRules map[string]bool
+	lockEng  *lockEngine
 }
 
 func newCtx(p *Prog, prop, tier string) *Ctx {
-	return &Ctx{P: p, Prop: prop, Tier: tier, Counts: map[string]int{}, Analysed: map[string]any{}, seen: map[string]bool{}}
+	return &Ctx{P: p, Prop: prop, Tier: tier, Counts: map[string]int{}, Analysed: map[string]any{}, seen: map[string]bool{}, ranRules: map[string]bool{}}
 }
 
 func (c *Ctx) add(rule, construct, pos, verdict, detail string, path ...string) *Obligation {
